@@ -408,6 +408,9 @@ func init() {
 	add("C20", "ERR-NILRET")
 	registerRule(&RuleDef{ID: "DEFER-ARM", Min: 1, Doc: "every monitor request is sent with the deferral of notifications armed", Run: ruleDEFERARM})
 	add("C01", "DEFER-ARM")
+	registerRule(&RuleDef{ID: "DEFER-DISARM", Min: 1, Doc: "monitor() never returns with the deferral of notifications still armed unless a reconnect is in progress or the connection is gone", Run: ruleDEFERDISARM})
+	add("C01", "DEFER-DISARM")
+	add("C16", "DEFER-DISARM")
 	add("C16", "DEFER-ARM")
 	registerRule(&RuleDef{ID: "V-RECV-PATH", Min: 1, Doc: "the event processor cannot return between taking an event from the channel and the next turn of its loop", Run: ruleVRECVPATH})
 	add("C14", "V-RECV-PATH")
@@ -417,6 +420,9 @@ func init() {
 	add("C14", "R-STARTLAST")
 	add("C16", "R-STARTLAST", "L1")
 	add("C17", "X1")
+	registerRule(&RuleDef{ID: "CH-CLOSE", Min: 1, Doc: "no channel held in a struct field is both closed and sent on", Run: ruleCHCLOSE})
+	add("C18", "CH-CLOSE")
+	add("C16", "CH-CLOSE")
 	add("C01", "ERR-LOOP")
 	add("C03", "X1", "MAX-ONE")
 	add("C04", "MAX-ONE")
